@@ -113,10 +113,15 @@ def stepSt (re : Re) (a : CallArgs) (t : List Int) (s : RunSt) : RunSt :=
 
 /-- what the caller gets: the error flag, the groups after `tidy`'s compaction (`none` = it indexed
     out of range, or there is no result object), the final text position, the parsed replacement -/
-abbrev Res (ν : Type) := Bool × Option (List (Nat × List Int)) × Int × Option ν
+structure Res (ν : Type) where
+  err : Bool
+  groups : Option (List (Nat × List Int))
+  textpos : Int
+  repl : Option ν
+  deriving DecidableEq, Repr
 
 def finishSt {ν : Type} (d : Option ν) (s : RunSt) : Res ν :=
-  (s.err, (s.r.runmatch.bind Builder.compact).map Builder.view, s.r.runtextpos, d)
+  { err := s.err, groups := (s.r.runmatch.bind Builder.compact).map Builder.view, textpos := s.r.runtextpos, repl := d }
 
 /-- `decodeString` into `(*bufp)[:needed]` -/
 def decodeBuf (a : CallArgs) (b : Pool.Buf) : Pool.Buf :=
